@@ -34,6 +34,9 @@ type rtCase struct {
 	IncludeDLEQ bool
 	Mint        string
 	Proofs      cashu.Proofs
+	// PriorBuild: before the token under test is built, another token is built from the very same slice of proofs
+	// (0 none, 3 / 4 the version, always without DLEQ) and thrown away - a wallet offering one set of proofs in two forms
+	PriorBuild int
 }
 
 func hexN(t *rapid.T, n int, label string) string {
@@ -220,6 +223,7 @@ func genCase() *rapid.Generator[rtCase] {
 			Version:     rapid.SampledFrom([]int{3, 4}).Draw(t, "version"),
 			IncludeDLEQ: rapid.Bool().Draw(t, "includeDLEQ"),
 			Mint:        genMint().Draw(t, "mint"),
+			PriorBuild:  rapid.SampledFrom([]int{0, 0, 0, 3, 4}).Draw(t, "prior_build_without_dleq"),
 		}
 		ids := genKeysetIDs().Draw(t, "ids")
 		mode := rapid.SampledFrom(dleqModes).Draw(t, "dleqmode")
@@ -455,6 +459,16 @@ func roundTrip(c rtCase) (v *violation, allowedErr bool, serialized string) {
 
 	var tok cashu.Token
 	var err error
+	if c.PriorBuild != 0 {
+		safely(func() {
+			if c.PriorBuild == 3 {
+				cashu.NewTokenV3(input, c.Mint, cashu.Sat, false)
+			} else {
+				cashu.NewTokenV4(input, c.Mint, cashu.Sat, false)
+			}
+		})
+		tag += fmt.Sprintf("|after_v%d_build_without_dleq", c.PriorBuild)
+	}
 	p, msg := safely(func() {
 		if c.Version == 3 {
 			var t3 cashu.TokenV3
